@@ -43,7 +43,7 @@ chk("C16", "static analysis: MIR decision tables vs Ord/PartialEq, lexicographic
     "CmpWrapper impls) is inlined to primitive comparisons and compared with Ord/PartialEq for every order type of its "
     "operands and every Some/None combination, with operand order (left,right) checked; slice/str orderings must not decide "
     "from the lengths before the element loop (LEX) and their loop-exit tables (first differing element, prefix exhausted -> "
-    "lengths; counter starts at 0, +1, guarded) must be lexicographic; equality loops likewise; U8Ordering constants/mapping. "
+    "lengths; counter starts at 0, +1, guarded; elements compared as primitives or through an ordering function called as inner(left[i], right[i]), for slice-pattern and index loops alike) must be lexicographic; equality loops likewise; U8Ordering constants/mapping. "
     "Symbolic in all values, so it covers the pairs tests cannot enumerate.",
     "Trusted: rustc MIR; the step from one-iteration tables to the whole loop is the standard induction on the counter "
     "(premises checked: init 0, +1, guard). The macros (const_cmp_for!/const_eq_for! option, slice, range and range_inclusive arms in all four "
@@ -145,11 +145,11 @@ chk("C19", "static analysis: MIR decision tables of macro expansions in a witnes
     "so results hold for every closure. The accept family is sampled per arity in the quick tier (uniform + mixed kinds).",
     cat="other")
 chk("C17", "static analysis: compile-reject / compile-accept witness programs with matched diagnostics, compile_error! inventory",
-    "A generated family of about 315 reject programs, each with an accept twin differing only in the offending element, is compiled "
+    "A generated family of about 400 reject programs, each with an accept twin differing only in the offending element, is compiled "
     "by the real stable rustc against the current konst: destructure! x {Drop type (braced/tuple struct, generic, path/type "
     "form, +-annotation), reference ({&, &mut} x 10 shapes incl. generic type-form / turbofish / self:: paths x +-annotation), "
     "wrong field/element count (12 shapes incl. one-element patterns and annotations naming a longer tuple or a struct), `..` rest (3 shapes)}, "
-    "iterator DSL x {double reversal for every reverser and all three macros, unknown methods, consumer in adapter-only "
+    "iterator DSL x {double reversal for every reverser and all three macros, also with each of the 12 adapters between the two reversers (every adapter arm threads the direction state), unknown methods, consumer in adapter-only "
     "macro, arguments to argument-less methods, argument-shape guards; the first four also with the offender after each state-"
     "rebuilding adapter (map, flatten, flat_map, zip, take_while, skip, enumerate, filter) and in all three for_each! forms}, parser_method! x {non-literal pattern for all six "
     "methods incl. a const/variable/nested macro hidden inside concat!(..) and patterns that begin with or wrap a string literal "
@@ -184,7 +184,8 @@ chk("C20", "static analysis: MIR scan/walk templates, decision tables, loop rela
     "sum(len(piece_i)) [+ sep.len()*(n-1), 0 if empty]; every fill loop copies piece[j] to out[cursor] with one shared "
     "cursor advanced by one and bounds-checked stores; join writes first,(sep,piece)*; __ElemDispatch/__SepArg len agree with "
     "the bytes they produce per kind; ArrayStr::as_str re-validates; in the macro expansions LEN and the bytes are computed "
-    "from the same ARGS constant; HYGIENE lint on the concat/join macro family.",
+    "from the same ARGS constant; the filler element of concat_slices comes from a walk over the pieces (index or running remainder) that gives up "
+    "only when every piece was empty, and is asked for only after the N == 0 return (FIRST-ELEM); HYGIENE lint on the concat/join macro family.",
     "Trusted: rustc MIR, char::len_utf8 (std) vs encode_utf8 arms (C07), the &CStr type invariant for the walk. Not decided: "
     "the bytes of the resulting constants (that would need compile-time evaluation as an oracle).")
 chk("C11", "static analysis: MaybeUninit init-typestate (path coverage on the pruned CFG) over macro expansions in a witness crate, protocol rules for ArrayBuilder",
@@ -218,7 +219,8 @@ chk("C15", "static analysis: linear-use analysis of macro expansions in a witnes
     "assert_is_empty forgets only an empty consumer; only new/empty/next/next_back/clone/copy write the counters; a panicking path of next/next_back leaves them as they were; in "
     "Clone the balance (slots written) - (slots newly covered by a counter update) is never negative where a call can unwind into "
     "the drop of the half-built clone, and zero after every round; "
-    "ArrayBuilder's Drop covers [0,inited) on every path (or nothing, under !needs_drop::<T>()). Exactly-once then follows from the range invariant by induction over operations.",
+    "ArrayBuilder's Drop covers [0,inited) on every path (or nothing, under !needs_drop::<T>()), and the builder's own invariant "
+    "(push asserts inited < N before it writes slot `inited` and only then bumps the counter; only new/push/copies write it) is decided here as well (C11's BUILDER rule). Exactly-once then follows from the range invariant by induction over operations.",
     "Trusted: rustc MIR/expansion; rustc's exhaustive-pattern check for the field set; the by-value map protocol is C11's BYVAL "
     "rule. Of the unwinding paths only what the rules above name is analysed (state left behind for Drop); cleanup blocks are "
     "otherwise not walked.")
